@@ -10,6 +10,8 @@ import (
 type Ctx struct {
 	done chan struct{}
 	err  AtomicValue
+	// DL, if non-zero, is reported by Deadline() (the context is still only cancelled by its cancel function)
+	DL time.Time
 }
 
 type ctxErr struct{ e error }
@@ -26,7 +28,7 @@ func WithCancel() (*Ctx, func()) {
 	}
 }
 
-func (c *Ctx) Deadline() (time.Time, bool) { return time.Time{}, false }
+func (c *Ctx) Deadline() (time.Time, bool) { return c.DL, !c.DL.IsZero() }
 func (c *Ctx) Done() <-chan struct{}       { return c.done }
 func (c *Ctx) Err() error {
 	if v, ok := c.err.Load().(ctxErr); ok {
